@@ -601,47 +601,75 @@ def read_trace(prefix):
     return events
 
 
-def run_problem(problem, cfg, tree=None, markers=None, want_trace=True):
-    """real run_mapping. returns dict(ok, error, results, out_tree, chunks)"""
-    with pipeline.workdir('ctmverif_ll_') as d:
-        stats, q, m = write_problem(problem, d, encoding=cfg['encoding'],
-                                    tree=tree, markers=markers)
-        (d / 'out').mkdir()
-        (d / 'tmp').mkdir()
-        config = pipeline.mapping_config(
-            q, stats, m, d / 'out', d / 'tmp',
-            n_processors=cfg['n_processors'], chunk_size=cfg['chunk_size'],
-            bootstrap_factor=cfg['bootstrap_factor'],
-            bootstrap_iteration=cfg['bootstrap_iteration'],
-            rng_seed=cfg['rng_seed'], n_runners_up=cfg['n_runners_up'],
-            flatten=cfg['flatten'], drop_level=cfg['drop_level'], csv=False)
-        old = os.environ.get('CELL_TYPE_MAPPER_VERIF_TRACE')
-        if want_trace:
-            os.environ['CELL_TYPE_MAPPER_VERIF_TRACE'] = str(d / 'trace')
+def run_problem(problem, cfg, tree=None, markers=None, want_trace=True,
+                workdir=None, tmp_dir=True):
+    """real run_mapping. returns dict(ok, error, results, out_tree, chunks).
+    workdir: a directory the caller keeps across several runs (same-process
+    history: the stats / query / marker files are RE-WRITTEN at the same paths);
+    default a fresh scratch directory.  tmp_dir=False runs with tmp_dir=None
+    (the query is then read in place instead of from a uniquely named copy);
+    the system temp directory is redirected into the workdir meanwhile."""
+    if workdir is None:
+        with pipeline.workdir('ctmverif_ll_') as d:
+            return _run_problem_in(d, problem, cfg, tree, markers, want_trace,
+                                   tmp_dir)
+    return _run_problem_in(pathlib.Path(workdir), problem, cfg, tree, markers,
+                           want_trace, tmp_dir)
+
+
+def _run_problem_in(d, problem, cfg, tree, markers, want_trace, tmp_dir):
+    import shutil
+    import tempfile
+    for sub in ('out', 'tmp', 'systmp'):
+        shutil.rmtree(d / sub, ignore_errors=True)
+        (d / sub).mkdir()
+    for f in d.glob('trace*'):
+        f.unlink()
+    stats, q, m = write_problem(problem, d, encoding=cfg['encoding'],
+                                tree=tree, markers=markers)
+    config = pipeline.mapping_config(
+        q, stats, m, d / 'out', (d / 'tmp') if tmp_dir else None,
+        n_processors=cfg['n_processors'], chunk_size=cfg['chunk_size'],
+        bootstrap_factor=cfg['bootstrap_factor'],
+        bootstrap_iteration=cfg['bootstrap_iteration'],
+        rng_seed=cfg['rng_seed'], n_runners_up=cfg['n_runners_up'],
+        flatten=cfg['flatten'], drop_level=cfg['drop_level'], csv=False)
+    old = os.environ.get('CELL_TYPE_MAPPER_VERIF_TRACE')
+    old_tmpdir = os.environ.get('TMPDIR')
+    old_tempdir = tempfile.tempdir
+    os.environ['TMPDIR'] = str(d / 'systmp')
+    tempfile.tempdir = str(d / 'systmp')
+    if want_trace:
+        os.environ['CELL_TYPE_MAPPER_VERIF_TRACE'] = str(d / 'trace')
+    else:
+        os.environ.pop('CELL_TYPE_MAPPER_VERIF_TRACE', None)
+    try:
+        res = pipeline.run_mapping(config)
+    finally:
+        tempfile.tempdir = old_tempdir
+        if old_tmpdir is None:
+            os.environ.pop('TMPDIR', None)
         else:
+            os.environ['TMPDIR'] = old_tmpdir
+        if old is None:
             os.environ.pop('CELL_TYPE_MAPPER_VERIF_TRACE', None)
-        try:
-            res = pipeline.run_mapping(config)
-        finally:
-            if old is None:
-                os.environ.pop('CELL_TYPE_MAPPER_VERIF_TRACE', None)
-            else:
-                os.environ['CELL_TYPE_MAPPER_VERIF_TRACE'] = old
-        chunks = None
-        nodes = None
-        if want_trace:
-            events = read_trace(d / 'trace')
-            chunks = sorted(
-                (e['r0'], e['r1'], e['cell_ids'])
-                for e in events if e['kind'] == 'chunk')
-            nodes = [e for e in events if e['kind'] == 'node']
-        left = sorted(x.name for x in (d / 'tmp').iterdir())
-        out = res['json'] or {}
-        return {'ok': res['ok'],
-                'error': None if res['ok'] else repr(res['error'])[:300],
-                'results': out.get('results'),
-                'out_tree': out.get('taxonomy_tree'),
-                'chunks': chunks, 'nodes': nodes, 'scratch_left': left}
+        else:
+            os.environ['CELL_TYPE_MAPPER_VERIF_TRACE'] = old
+    chunks = None
+    nodes = None
+    if want_trace:
+        events = read_trace(d / 'trace')
+        chunks = sorted(
+            (e['r0'], e['r1'], e['cell_ids'])
+            for e in events if e['kind'] == 'chunk')
+        nodes = [e for e in events if e['kind'] == 'node']
+    left = sorted(x.name for x in (d / 'tmp').iterdir())
+    out = res['json'] or {}
+    return {'ok': res['ok'],
+            'error': None if res['ok'] else repr(res['error'])[:300],
+            'results': out.get('results'),
+            'out_tree': out.get('taxonomy_tree'),
+            'chunks': chunks, 'nodes': nodes, 'scratch_left': left}
 
 
 def flatten_root_genes_fail(problem, markers, nodes):
